@@ -233,7 +233,7 @@ CHECKS["C18"] = dict(
     text="For every schema of a family (1..4 CAN bindings named after their struct, ids 0..2047, bus names of 1..4 "
          "characters incl. names that prefix one another, same id on several buses, same bus with several ids; bus-less and "
          "non-CAN bindings present) the real fcp_cpp generator's can_static_schema.h/can.h/fcp.h are compiled with a harness TU "
-         "(clang++ -O1 to IR) and llsym interprets CanStaticSchema::Encode/Decode with everything they reach "
+         "(clang++ -O1 to IR) and llsym interprets fcp::can::Can{make_shared<CanStaticSchema>}::Encode/Decode with everything they reach "
          "(GetMsgName/GetSid/GetBus tables, StaticSchema::EncodeJson/DecodeJson name dispatch, <S>::Encode/Decode, Buffer, "
          "libstdc++ string/optional/vector code). Obligations: Encode(name, v) for every in-range v gives (bus tag, id, dlc, data) == "
          "(binding's bus NUL-padded, binding's id, canonical size, canonical bytes) with no byte read from uninitialised "
